@@ -12,6 +12,15 @@
 (*          last, offsets cycle, never blocks).                            *)
 (* PROGRAM  A_Suggest / A_Report / A_Fail: transcription of next_job,      *)
 (*          on_result, get_top_list and the primary-bracket advance.       *)
+(*                                                                         *)
+(* cf.de = TRUE: Differential Evolution Hyperband (dehb.py,                *)
+(*   dehb_bracket_manager.py), which runs on the same bracket manager:     *)
+(*   rung systems are suffixes of the first bracket's, every job is a NEW  *)
+(*   trial that is stopped at its milestone -- except in the very first    *)
+(*   bracket when cf.pr (support_pause_resume): there the best trials of   *)
+(*   the completed rung are paused and resumed as in synchronous Hyperband.*)
+(*   Mutation, cross-over and selection only decide WHICH configuration a  *)
+(*   new trial evaluates and are outside this specification.               *)
 (***************************************************************************)
 EXTENDS Integers, Sequences, FiniteSets, TLC, SequencesExt
 
@@ -22,11 +31,11 @@ Pend == -2      \* slot handed out, no result yet
 NaN  == -1      \* job failed
 
 VARIABLES
-  cf,       \* [sys : Seq(Seq(<<size, level>>)), min, mra]   sys[o+1] = rung system of offset o
+  cf,       \* [sys : Seq(Seq(<<size, level>>)), min, mra, de, pr]   sys[o+1] = rung system of offset o
   B,        \* Seq of brackets [off, rg]; rg[i] = Seq of slots [t, v]  (rung i, lowest first)
   primary,  \* index (1-based) of the primary bracket (program)
   pslot,    \* [Trials -> <<b, i, k>>] pending slot of a running trial, <<>> otherwise
-  st,       \* [Trials -> "none" | "running" | "paused" | "failed"]
+  st,       \* [Trials -> "none" | "running" | "paused" | "stopped" | "failed"]
   lastr,    \* [Trials -> last level reported]
   nstart,
   rmv,      \* trials declared removable so far
@@ -62,6 +71,9 @@ TopFeasible(b, i, P, k) ==
 EmptyRung(n) == [k \in 1..n |-> [t |-> -1, v |-> Free]]
 NewBracket(o) == [off |-> o, rg |-> [i \in 1..Len(cf.sys[o + 1]) |-> EmptyRung(cf.sys[o + 1][i][1])]]
 
+\* does bracket b (position in B) pause its trials at the milestone and resume the best ones?
+Resumes(b) == ~cf.de \/ (cf.pr /\ b = 1)
+
 ----------------------------------------------------------------------------
 (* MONITOR *)
 
@@ -80,12 +92,13 @@ EvJob(b, i, k, lv, t, isnew, mval) ==
        \cup Flag(lv # sys[i][2], "wrong_level")
        \cup Flag(~over /\ B1[b].rg[i][k].v # Free, "slot_handed_twice")                          \* C05: rung of the configured size
        \cup Flag(\E j \in 1..sys[i][1] : j # k /\ B1[b].rg[i][j].v # Free /\ B1[b].rg[i][j].t = t, "trial_twice_in_rung")   \* C05: distinct trials
-       \cup Flag(i > 1 /\ isnew, "new_trial_in_upper_rung")
+       \cup Flag(i > 1 /\ isnew /\ Resumes(b), "new_trial_in_upper_rung")
        \cup Flag(i = 1 /\ ~isnew, "resume_in_lowest_rung")
+       \cup Flag(~isnew /\ ~Resumes(b), "resume_outside_first_bracket")          \* DEHB: later brackets only start trials
        \cup Flag(isnew /\ t # nstart, "trial_id_sequence")
        \cup Flag(~newb /\ i > 1 /\ ~Complete(b, i - 1), "resume_before_rung_complete")           \* C05
-       \cup Flag(~newb /\ i > 1 /\ Complete(b, i - 1) /\ t \notin TrialsIn(b, i - 1), "promoted_from_elsewhere")
-       \cup Flag(~newb /\ i > 1 /\ Complete(b, i - 1) /\ t \in TrialsIn(b, i - 1)
+       \cup Flag(~isnew /\ ~newb /\ i > 1 /\ Complete(b, i - 1) /\ t \notin TrialsIn(b, i - 1), "promoted_from_elsewhere")
+       \cup Flag(~isnew /\ ~newb /\ i > 1 /\ Complete(b, i - 1) /\ t \in TrialsIn(b, i - 1)
                   /\ ~TopFeasible(b, i - 1, (TrialsIn(b, i) \cup {t}) \cap TrialsIn(b, i - 1), RSize(b, i)), "promoted_not_top")   \* C05
        \cup Flag(~isnew /\ t \in rmv, "resume_after_removable")                                 \* C20
        \cup Flag(~isnew /\ st[t] \in {"running", "none"}, "resume_not_paused")                    \* C05
@@ -108,11 +121,12 @@ EvResult(t, r, v, d) ==
   /\ st[t] = "running" /\ pslot[t] # <<>> /\ r = lastr[t] + 1       \* harness physics
   /\ LET b == pslot[t][1]  i == pslot[t][2]  k == pslot[t][3]  lv == RLevel(b, i) IN
      /\ r <= lv
-     /\ flags' = flags \cup Flag(r = lv /\ d # "PAUSE", "pause_at_milestone") \cup Flag(r < lv /\ d # "CONTINUE", "decide_off_milestone")
+     /\ flags' = flags \cup Flag(r = lv /\ d # (IF Resumes(b) THEN "PAUSE" ELSE "STOP"), "pause_at_milestone")
+                       \cup Flag(r < lv /\ d # "CONTINUE", "decide_off_milestone")
      /\ IF r = lv
           THEN /\ B' = IF k = 0 THEN B ELSE [B EXCEPT ![b].rg[i][k].v = v]
                /\ pslot' = [pslot EXCEPT ![t] = <<>>]
-               /\ st' = [st EXCEPT ![t] = "paused"]
+               /\ st' = [st EXCEPT ![t] = IF d = "STOP" THEN "stopped" ELSE "paused"]
           ELSE UNCHANGED <<B, pslot, st>>
   /\ lastr' = [lastr EXCEPT ![t] = r]
   /\ UNCHANGED <<cf, primary, nstart, rmv>>
@@ -138,6 +152,19 @@ EvRemovable(S) ==
   /\ rmv' = rmv \cup S
   /\ UNCHANGED <<cf, B, primary, pslot, st, lastr, nstart>>
 
+\* suggest() returned None although configurations are left (the scheduler reports the job it could not fill as failed,
+\* "so that the bracket is not blocked"): the request for work was refused.  The slot is the next free one of the first
+\* open bracket with a free slot.
+EvNoJob ==
+  LET cand == {b \in primary..Len(B) : HasFree(b)}
+      b == CHOOSE x \in cand : \A c \in cand : x <= c
+      i == CurRung(b)
+      k == Cardinality(Handed(b, i)) + 1
+  IN
+  /\ flags' = flags \cup {"suggest_refused"}
+  /\ B' = IF cand = {} THEN B ELSE [B EXCEPT ![b].rg[i][k] = [t |-> -1, v |-> NaN]]
+  /\ UNCHANGED <<cf, primary, pslot, st, lastr, nstart, rmv>>
+
 EvCrash ==
   /\ flags' = flags \cup {"scheduler_raised"}
   /\ UNCHANGED <<cf, B, primary, pslot, st, lastr, nstart, rmv>>
@@ -145,10 +172,10 @@ EvCrash ==
 NoFlag(f) == f \notin flags
 RungFilledByDistinctTrials == NoFlag("rung_overfilled") /\ NoFlag("slot_handed_twice") /\ NoFlag("trial_twice_in_rung") /\ NoFlag("wrong_level")
                               /\ NoFlag("new_trial_in_upper_rung") /\ NoFlag("resume_in_lowest_rung")
-                              /\ NoFlag("job_outside_current_rung")
+                              /\ NoFlag("job_outside_current_rung") /\ NoFlag("resume_outside_first_bracket")
 ResumeOnlyAfterRungComplete == NoFlag("resume_before_rung_complete") /\ NoFlag("resume_not_paused")
 PromotedAreTopK == NoFlag("promoted_not_top") /\ NoFlag("promoted_from_elsewhere")
-NextJobNeverBlocks == NoFlag("scheduler_raised") /\ NoFlag("new_bracket_while_free")
+NextJobNeverBlocks == NoFlag("scheduler_raised") /\ NoFlag("new_bracket_while_free") /\ NoFlag("suggest_refused")
 PauseAtMilestone == NoFlag("pause_at_milestone") /\ NoFlag("decide_off_milestone") /\ NoFlag("wrong_max_resource_attr")
 IdsInSequence == NoFlag("trial_id_sequence")
 FailedNeverPromoted == NoFlag("failed_promoted") /\ NoFlag("failed_promoted_too_few_valid")
@@ -190,9 +217,14 @@ A_Suggest ==
                                IF cf.mra THEN cf.sys[((b - 1) % NumOff) + 1][1][2] ELSE 0)
     ELSE LET i == CurRung(b)
              k == Cardinality(Handed(b, i)) + 1
-         IN  IF i = 1
-               THEN nstart < NT /\ EvJob(b, 1, k, RLevel(b, 1), nstart, TRUE, IF cf.mra THEN RLevel(b, 1) ELSE 0)
-               ELSE EvJob(b, i, k, RLevel(b, i), CodeTopList(b, i - 1, RSize(b, i))[k], FALSE, IF cf.mra THEN RLevel(b, i) ELSE 0)
+         IN  IF i = 1 \/ ~Resumes(b)      \* (DEHB: a new trial for every job outside the first bracket)
+               THEN nstart < NT /\ EvJob(b, i, k, RLevel(b, i), nstart, TRUE, IF cf.mra THEN RLevel(b, i) ELSE 0)
+               ELSE LET top == CodeTopList(b, i - 1, RSize(b, i))[k] IN
+                    \* DEHB: the slot of a failed job holds no trial id; a promotion that would pick it gives up, the job
+                    \* is reported as failed and suggest() answers None (known finding F17)
+                    IF cf.de /\ ValOf(b, i - 1, top) = NaN
+                      THEN EvNoJob
+                      ELSE EvJob(b, i, k, RLevel(b, i), top, FALSE, IF cf.mra THEN RLevel(b, i) ELSE 0)
 
 \* the primary bracket advances when it completes (on_result)
 PrimaryAfter(Bn) ==
@@ -202,7 +234,8 @@ PrimaryAfter(Bn) ==
   IN  IF open = {} THEN Len(Bn) + 1 ELSE CHOOSE b \in open : \A c \in open : b <= c
 
 A_Report(t, v) ==
-  /\ EvResult(t, lastr[t] + 1, v, IF lastr[t] + 1 >= RLevel(pslot[t][1], pslot[t][2]) THEN "PAUSE" ELSE "CONTINUE")
+  /\ EvResult(t, lastr[t] + 1, v, IF lastr[t] + 1 >= RLevel(pslot[t][1], pslot[t][2])
+                                    THEN (IF Resumes(pslot[t][1]) THEN "PAUSE" ELSE "STOP") ELSE "CONTINUE")
 A_Fail(t) == EvFail(t)
 
 \* after a result for the primary bracket: move primary; create a new bracket if all are complete
